@@ -272,8 +272,33 @@ func (d *rdDecoder) fill(fr *frame) {
 			}
 			unsup("json decoder model: the end of a value arrived without its beginning")
 		case byte:
-			if b != ' ' && b != '\n' && b != '\t' && b != '\r' && b != 0 {
-				unsup("json decoder model: raw byte %q from the reader", b)
+			switch {
+			case b == ' ' || b == '\n' || b == '\t' || b == '\r':
+			case b == ']' || b == '}':
+				d.queue = append(d.queue, jsonStray{})
+			case strings.IndexByte("\"{[-0123456789tfn", b) >= 0:
+				unsup("json decoder model: raw byte %q from the reader begins a value", b)
+			default:
+				d.queue = append(d.queue, jsonGarbage{})
+			}
+		case symv:
+			// a symbolic raw byte: white space is skipped, a closing bracket is stray, the
+			// beginning of a value is outside the model, anything else is a syntax error
+			eq := func(set string) *Term {
+				c := TFalse
+				for i := 0; i < len(set); i++ {
+					c = Or(c, Eq(b.T, konst(b.T.Sort, uint64(set[i]))))
+				}
+				return c
+			}
+			switch {
+			case fr.i.eng.decide(eq(" \n\t\r")):
+			case fr.i.eng.decide(eq("]}")):
+				d.queue = append(d.queue, jsonStray{})
+			case fr.i.eng.decide(eq("\"{[-0123456789tfn")):
+				unsup("json decoder model: a symbolic raw byte may begin a value")
+			default:
+				d.queue = append(d.queue, jsonGarbage{})
 			}
 		default:
 			unsup("json decoder model: unexpected buffer element %T", b)
@@ -406,6 +431,10 @@ func emitChunkSym(fr *frame, args []value) value {
 		kind, idx := int(asInt64(pt[0])), int(asInt64(pt[1]))
 		switch kind {
 		case 0:
+			if b, ok := garbageByte(items[idx]); ok {
+				p[n] = b // a one-byte piece of non-JSON text travels as the byte itself
+				break
+			}
 			p[n] = jsonItem{items[idx]}
 		case 1:
 			p[n] = jsonHead{idx}
@@ -416,8 +445,41 @@ func emitChunkSym(fr *frame, args []value) value {
 	return tuple{len(parts), c[1]}
 }
 
+// garbageByte: the byte of a Garbage fault whose text is a single (possibly symbolic) byte.
+func garbageByte(item value) (value, bool) {
+	it, ok := item.(iface)
+	if !ok || it.t == nil || !strings.HasSuffix(it.t.String(), "vh.Fault") {
+		return nil, false
+	}
+	st := it.v.(structure)
+	if int(asInt64(st[0])) != fGarbage {
+		return nil, false
+	}
+	switch t := st[1].(type) {
+	case string:
+		if len(t) == 1 {
+			return t[0], true
+		}
+	case symStr:
+		if len(t.B) == 1 {
+			return t.B[0], true
+		}
+	}
+	return nil, false
+}
+
+// raw bytes met between values by the decoder model
+type jsonGarbage struct{}
+type jsonStray struct{}
+
 // faultKind returns 0 for a JSON value, or the fault kind of the item.
 func faultKind(item value) int {
+	switch item.(type) {
+	case jsonGarbage:
+		return fGarbage
+	case jsonStray:
+		return fStrayClose
+	}
 	it, ok := item.(iface)
 	if !ok || it.t == nil {
 		return 0
